@@ -19,7 +19,10 @@ RULE = (
     "(plain, keys, values, entries, destructured), every comprehension form, "
     "list/set/map/object/string conversions, spreads in calls and list "
     "literals, destructuring def/assignment, rendering and print, + and - "
-    "with collections, sorted, enumerate and the collection functions of "
+    "with collections, sorted, enumerate, every function of the base "
+    "environment applied directly to the set / map in ten argument shapes "
+    "(incl. key= / cmp= functions under which elements tie) and the "
+    "collection functions of "
     "Core/List/Set/Stat/String/Random (with set_seed). Oracle (i): the batch "
     "is interpreted in 8 (thorough 32) fresh processes with different "
     "PYTHONHASHSEED values and in this process (seed 0); value rendering, "
@@ -151,6 +154,41 @@ PATHS = [
     ("nested-map-order", "string(<<<identity(S) => 1, identity(S2) => 2>>>)"),
     ("equality", "[S == set(reverse_list(list(S))), M == map(reverse_list(enumerate(M)))]"),
 ]
+
+# Every library function applied *directly* to a set / map (not to list(S)),
+# also with key / cmp functions under which several elements tie.
+LIB_EXCLUDED = {
+    "bind_native", "close", "console", "execute", "file_copy", "file_delete",
+    "file_exists", "file_info", "file_input", "file_move", "file_output",
+    "list_dir", "make_dir", "get_env", "now", "timestamp", "read", "read_all",
+    "read_file", "readln", "stdin", "stdout", "process_lines", "run", "ls",
+    "which", "path", "eval", "parse", "new", "info",
+}
+LIB_SHAPES = [
+    ("S", "F(S)"), ("M", "F(M)"), ("S,S2", "F(S, S2)"), ("S,2", "F(S, 2)"),
+    ("S,fn", "F(S, fn(x) length(string(x)))"),
+    ("S,key-tie", "F(S, key = fn(x) length(string(x)))"),
+    ("S,cmp-tie", "F(S, cmp = fn(a, b) compare(length(string(a)), "
+                  "length(string(b))))"),
+    ("M,key-const", "F(M, key = fn(x) 0)"),
+    ("list,S2", "F(list(S), S2)"),
+    ("fn,S", "F(fn(x) length(string(x)), S)"),
+]
+
+
+def lib_paths():
+    from ckl.interpreter import Interpreter
+    from ckl.values import ValueFunc
+    it = Interpreter(False, True)
+    out = []
+    for name, v in sorted(it.base_environment.map.items()):
+        if name in LIB_EXCLUDED or not isinstance(v, ValueFunc):
+            continue
+        for tag, shape in LIB_SHAPES:
+            out.append((f"lib:{name}({tag})",
+                        "set_seed(11); " + shape.replace("F(", name + "(", 1)))
+    return out
+
 
 WORDS = ["alpha", "beta", "gamma", "delta", "eps", "zeta", "eta", "theta",
          "iota", "kappa", "a", "b", "c", "aa", "ab", "A", "B", "z", "0", "10",
@@ -338,8 +376,13 @@ def prop(case):
 
 # --------------------------------------------------------------------- parts
 
-def part_paths(part, n, exhaustive_paths):
+def part_paths(part, n, exhaustive_paths, lib=None):
     collected = []
+    PATHS = globals()["PATHS"]
+    if lib is not None:
+        lp = lib_paths()
+        PATHS = [p for i, p in enumerate(lp) if i % lib[1] == lib[0]]
+        n = len(PATHS) * (3 if part.tier == "thorough" else 1)
 
     def body(tape):
         ch = TapeChooser(tape)
@@ -394,11 +437,15 @@ def part_paths(part, n, exhaustive_paths):
 
 
 def parts(tier, seed):
+    libs = [(f"lib-{i}", part_paths,
+             {"n": 0, "exhaustive_paths": True, "lib": (i, 4)})
+            for i in range(4)]
     if tier == "quick":
         return [(f"paths-{i}", part_paths,
-                 {"n": 1500, "exhaustive_paths": i < 2}) for i in range(4)]
+                 {"n": 1500, "exhaustive_paths": i < 2})
+                for i in range(4)] + libs
     return [(f"paths-{i}", part_paths,
-             {"n": 5000, "exhaustive_paths": i < 2}) for i in range(4)]
+             {"n": 5000, "exhaustive_paths": i < 2}) for i in range(4)] + libs
 
 
 if __name__ == "__main__":
